@@ -98,6 +98,32 @@ theorem forms_arity_le : ∀ f ∈ forms, f.arity ≤ f.ops.length := by
   simp only [Bool.and_eq_true, decide_eq_true_eq] at this
   exact this.1.1.1.1.1
 
+/-- **Branch / terminal features of every row** of the current form table are those of
+the row's mnemonic (shard obligations `forms_NN_feat`, kernel-evaluated). -/
+theorem forms_feat : ∀ f ∈ forms, Form.featOK formsMeta f = true := by
+  intro f hf
+  simp only [forms, formShards, List.mem_flatten, List.mem_cons, List.not_mem_nil, or_false] at hf
+  obtain ⟨sh, hsh, hf⟩ := hf
+  have key : ∀ (l : List Form), l.all (Form.featOK formsMeta) = true → f ∈ l → Form.featOK formsMeta f = true :=
+    fun l h hm => List.all_eq_true.mp h f hm
+  rcases hsh with rfl | rfl | rfl | rfl | rfl | rfl | rfl | rfl | rfl | rfl | rfl | rfl | rfl | rfl | rfl | rfl
+  · exact key _ forms_00_feat hf
+  · exact key _ forms_01_feat hf
+  · exact key _ forms_02_feat hf
+  · exact key _ forms_03_feat hf
+  · exact key _ forms_04_feat hf
+  · exact key _ forms_05_feat hf
+  · exact key _ forms_06_feat hf
+  · exact key _ forms_07_feat hf
+  · exact key _ forms_08_feat hf
+  · exact key _ forms_09_feat hf
+  · exact key _ forms_10_feat hf
+  · exact key _ forms_11_feat hf
+  · exact key _ forms_12_feat hf
+  · exact key _ forms_13_feat hf
+  · exact key _ forms_14_feat hf
+  · exact key _ forms_15_feat hf
+
 /-- the shards, as triples of constructor / method / global rows -/
 def shardTriples : List (List CtorRow × List WrapRow × List WrapRow) :=
   [(ctors_00, methods_00, globals_00), (ctors_01, methods_01, globals_01), (ctors_02, methods_02, globals_02),
@@ -151,6 +177,31 @@ theorem zipEntries_ranges : ∀ (is ss : List Nat) (rs : List (Nat × Nat)) (i :
         cases i with
         | zero => simp [zipEntries] at h; subst h; rfl
         | succ i => simp only [zipEntries, List.getElem?_cons_succ] at h ⊢; exact ih ss rs i e h
+
+theorem zipEntries_strs : ∀ (is ss : List Nat) (rs : List (Nat × Nat)) (i : Nat) (e : OpcEntry),
+    (zipEntries is ss rs)[i]? = some e → ss[i]? = some e.str ∧ is[i]? = some e.ident := by
+  intro is
+  induction is with
+  | nil => intro ss rs i e h; simp [zipEntries] at h
+  | cons a is ih =>
+    intro ss rs i e h
+    cases ss with
+    | nil => simp [zipEntries] at h
+    | cons s ss =>
+      cases rs with
+      | nil => simp [zipEntries] at h
+      | cons r rs =>
+        obtain ⟨lo, hi⟩ := r
+        cases i with
+        | zero => simp [zipEntries] at h; subst h; exact ⟨rfl, rfl⟩
+        | succ i => simp only [zipEntries, List.getElem?_cons_succ] at h ⊢; exact ih ss rs i e h
+
+/-- `opc(i+1).String()` is the mnemonic of the entry -/
+theorem opcString_entry (i : Nat) (e : OpcEntry) (he : formsMeta.entries[i]? = some e) :
+    opcString formsMeta (i + 1) = e.str := by
+  have := (zipEntries_strs _ _ _ i e he).1
+  unfold opcString
+  simp only [List.getD_eq_getElem?_getD, this, Option.getD_some]
 
 /-- `opc(i+1).Forms()` is the block of rows with opcode code `i+1` -/
 theorem formsOf_eq_filter (i : Nat) (e : OpcEntry) (he : formsMeta.entries[i]? = some e) :
@@ -232,7 +283,10 @@ structure Verdict (c : CtorRow) (m g : WrapRow) : Prop where
           tupleMatches cls actuals = true) ∧
       -- on acceptance: that opcode and suffixes, the operands in the given order; one node appended, no error
       (∀ i, r = some i → i.opc = k ∧ i.sfx = s ∧ i.operands = actuals ∧
-          (addinstruction ctx r).nodes = ctx.nodes ++ [i] ∧ (addinstruction ctx r).errs = ctx.errs) ∧
+          (addinstruction ctx r).nodes = ctx.nodes ++ [i] ∧ (addinstruction ctx r).errs = ctx.errs ∧
+          -- building it does not panic, and its terminal / branch / conditional attributes are those of the
+          -- mnemonic `e.str` (not merely "whatever the matched row says")
+          i.panics = false ∧ AttrSpec (Name.key e.str) i.isTerminal i.isBranch i.isConditional) ∧
       -- on rejection: an error is recorded and nothing is added
       (r = none → (addinstruction ctx r).nodes = ctx.nodes ∧ (addinstruction ctx r).errs = ctx.errs + 1)
 
@@ -277,12 +331,78 @@ theorem C06_tables : ∀ t ∈ shardTriples, ∀ (i : Nat) (c : CtorRow), t.1[i]
     · intro ins hins
       obtain ⟨hops, hsfx, f, hf, hopc, _⟩ := build_operands formsMeta _ s actuals ins hins
       have hfk : f.opc = 1 + j := by simpa using (List.mem_filter.mp hf).2
-      refine ⟨by omega, hsfx, hops, ?_⟩
-      rw [hins]; exact addinstruction_ok ctx ins
+      have hgwf : ∀ g ∈ forms.filter (fun f => f.opc == 1 + j), Form.wf formsMeta g = true :=
+        fun g hg => forms_wf g (List.mem_filter.mp hg).1
+      have hgft : ∀ g ∈ forms.filter (fun f => f.opc == 1 + j), Form.featOK formsMeta g = true :=
+        fun g hg => forms_feat g (List.mem_filter.mp hg).1
+      have hattr := build_attrs formsMeta _ s actuals ins hins hgft
+      have hopc' : ins.opc = j + 1 := by omega
+      rw [hopc', opcString_entry j e he] at hattr
+      refine ⟨by omega, hsfx, hops, ?_, ?_, build_no_panic formsMeta _ s actuals ins hins hgwf, hattr⟩
+      · rw [hins]; exact (addinstruction_ok ctx ins).1
+      · rw [hins]; exact (addinstruction_ok ctx ins).2
     · intro hnone
       rw [hnone]; exact addinstruction_err ctx
 
 /-- non-vacuity: the first shard is not empty and its first constructor has documentation rows -/
 example : ∃ c, ctors_00[0]? = some c ∧ c.doc ≠ [] := ⟨_, rfl, by decide⟩
+
+/-! ## "For every opcode": no opcode of the enum is without a constructor -/
+
+/-- drop adjacent repetitions -/
+def dedupAdj : List Nat → List Nat
+  | [] => []
+  | a :: rest =>
+    match rest with
+    | [] => [a]
+    | b :: _ => if a == b then dedupAdj rest else a :: dedupAdj rest
+
+theorem mem_of_mem_dedupAdj : ∀ (l : List Nat) (a : Nat), a ∈ dedupAdj l → a ∈ l := by
+  intro l
+  induction l with
+  | nil => intro a h; simp [dedupAdj] at h
+  | cons x rest ih =>
+    intro a h
+    cases rest with
+    | nil => simpa [dedupAdj] using h
+    | cons b rest' =>
+      unfold dedupAdj at h
+      simp only at h
+      by_cases hxb : (x == b) = true
+      · simp only [hxb, if_true] at h
+        exact List.mem_cons_of_mem _ (ih a h)
+      · simp only [hxb, Bool.false_eq_true, if_false, List.mem_cons] at h
+        rcases h with h | h
+        · subst h; exact List.mem_cons_self
+        · exact List.mem_cons_of_mem _ (ih a h)
+
+/-- the opcode constants of the constructor rows, repetitions dropped, are exactly the opcode enum, in order -/
+theorem ctor_opcodes_are_the_enum : dedupAdj (ctors.map (·.opcConst)) = formsMeta.opcs := by
+  decide +kernel
+
+/-- **Every opcode has a constructor** (hence, by `C06_tables`, a Context method and a
+package-level function with the verdict): the quantifier "for every opcode" of the property
+ranges over the whole enum of x86/zoptab.go, not just over the rows that were extracted. -/
+theorem every_opcode_has_ctor : ∀ o ∈ formsMeta.opcs, ∃ c ∈ ctors, c.opcConst = o := by
+  intro o ho
+  rw [← ctor_opcodes_are_the_enum] at ho
+  have := mem_of_mem_dedupAdj _ _ ho
+  obtain ⟨c, hc, rfl⟩ := List.mem_map.mp this
+  exact ⟨c, hc, rfl⟩
+
+/-- and every constructor belongs to one of the shards `C06_tables` ranges over -/
+theorem ctors_in_shards : ∀ c ∈ ctors, ∃ t ∈ shardTriples, c ∈ t.1 := by
+  intro c hc
+  simp only [ctors, ← shardTriples_ctors, List.mem_flatten, List.mem_map] at hc
+  obtain ⟨l, ⟨t, ht, rfl⟩, hcl⟩ := hc
+  exact ⟨t, ht, hcl⟩
+
+/-! non-vacuity of the verdict's clauses on the tables: the first opcode's forms accept a documented operand
+list (`ADCB imm8, al`) and reject the swapped one; the enum is not empty -/
+example : (build formsMeta (formsOf formsMeta forms 1) (0, 0)
+    [.imm tI8 (-1), .reg ⟨kindGP, 1, idAL, 1, 0⟩]).isSome = true := by decide +kernel
+example : build formsMeta (formsOf formsMeta forms 1) (0, 0)
+    [.reg ⟨kindGP, 1, idAL, 1, 0⟩, .imm tI8 (-1)] = none := by decide +kernel
+example : formsMeta.opcs ≠ [] := by decide +kernel
 
 end Avo.C06
